@@ -302,6 +302,14 @@ fn rule_forget_overwritten_stack(
             }
         }
     }
+    // A called function is free to use the memory below the stack pointer
+    if node.calls_to().is_some() {
+        memory_out.retain(|location, _| match (location, stack_offset) {
+            (MemoryLocation::StackOffset(slot), Some(curr_stack)) => *slot >= curr_stack,
+            (MemoryLocation::StackOffset(_), None) => false,
+            _ => true,
+        });
+    }
 }
 
 fn rule_expand_address_for_load(
